@@ -41,7 +41,8 @@ def strategy(ctx):
     @st.composite
     def s(draw):
         direction = draw(st.sampled_from(["request", "response"]))
-        framing = draw(st.sampled_from(["cl", "chunked"] if direction == "request" else ["cl", "chunked", "eof"]))
+        # "h2": an HTTP/2 client sends the request body as DATA frames without a content-length header (request direction)
+        framing = draw(st.sampled_from(["cl", "chunked", "h2"] if direction == "request" else ["cl", "chunked", "eof"]))
         limit = draw(st.sampled_from([None, None] + SIZES))
         stream = draw(st.sampled_from([None, None] + SIZES))
         store = draw(st.booleans())
@@ -158,7 +159,7 @@ def decide(case, pieces):
     addon = case["cb"] is not None
     known = n if case["framing"] == "cl" else None
     if not n:
-        if addon and known is None:
+        if addon and known is None and case["framing"] != "h2":  # (an empty HTTP/2 request ends on its HEADERS frame)
             return ("stream", 0)  # self-delimited empty body: streaming starts, an end-of-stream tail may be emitted
         return ("buffer", None)  # message without body: nothing to stream or limit
     if known is not None:
@@ -180,12 +181,63 @@ def decide(case, pieces):
     return ("buffer", None)
 
 
+def run_h2_request(case, opts):
+    """request direction over an HTTP/2 client (DATA frames, no content-length); the server speaks HTTP/1"""
+    import h2peer
+    ctx = make_context(make_options(**opts))
+    ctx.client.alpn = b"h2"
+    top = http_layer.HttpLayer(ctx, http_layer.HTTPMode.regular)
+    names, flows = [], []
+    cb = make_cb(case["cb"], None)
+
+    def policy(hook):
+        names.append(hook.name)
+        f = getattr(hook, "flow", None)
+        if f is not None and f not in flows:
+            flows.append(f)
+        if cb is not None and hook.name == "requestheaders":
+            f.request.stream = cb
+    d = Driver(ctx, top, hook_policy=policy)
+    c = h2peer.H2Peer(True)
+    c.start()
+    d.on_send[ctx.client] = c.receive
+    d.start()
+    d.recv(ctx.client, c.take())
+    maxbuf = [0]
+
+    def observe():
+        tot = sum(len(s.request_body_buf) + len(s.response_body_buf) for s in list(top.streams.values()))
+        maxbuf[0] = max(maxbuf[0], tot)
+    body = body_bytes(case["n"])
+    pts = [0] + [x for x in case["cuts"] if 0 < x < len(body)] + [len(body)]
+    pieces = [body[a:b] for a, b in zip(pts, pts[1:]) if b > a]
+    c.send_headers(1, [(b":method", b"POST"), (b":scheme", b"http"), (b":authority", b"a.example"), (b":path", b"/")], end_stream=not pieces)
+    d.recv(ctx.client, c.take())
+    observe()
+    for i, p in enumerate(pieces):
+        if not (ctx.client.state & ConnectionState.CAN_READ) or c.error is not None:
+            break
+        c.send_data(1, p, end_stream=i == len(pieces) - 1)
+        data = c.take()
+        if data:
+            d.recv(ctx.client, data)
+        observe()
+    for s in d.servers:
+        res = ref_http1.parse_requests(d.out(s), eof=False)
+        if res.msgs and s.state & ConnectionState.CAN_READ:
+            d.recv(s, b"HTTP/1.1 200 OK\r\nContent-Length: 0\r\n\r\n")
+    d.h2_client = c
+    return d, names, flows, maxbuf[0], pieces, body
+
+
 def run_case(case):
     opts = {"store_streamed_bodies": bool(case["store"])}
     if case["limit"]:
         opts["body_size_limit"] = case["limit"]
     if case["stream"]:
         opts["stream_large_bodies"] = case["stream"]
+    if case["framing"] == "h2":
+        return run_h2_request(case, opts)
     ctx = make_context(make_options(**opts))
     top = http_layer.HttpLayer(ctx, http_layer.HTTPMode.regular)
     names = []
@@ -277,7 +329,21 @@ def check_case(case, ctx):
     if L is not None and maxbuf > L + biggest and not streaming_and_stored:
         ctx.fail("buffer-exceeds-limit-plus-piece:%s" % cls, "held %d bytes, limit %d, largest piece %d" % (maxbuf, L, biggest))
     client_out = d.out(d.ctx.client)
-    cres = ref_http1.parse_responses(client_out, [b"POST" if case["dir"] == "request" else b"GET"] * 3)
+    if case["framing"] == "h2":
+        # the client side is HTTP/2: read the status from the independent h2 client peer
+        class _M:
+            pass
+        cres = _M()
+        cres.msgs, cres.error, cres.partial = [], None, None
+        rec = d.h2_client.streams.get(1)
+        if rec is not None and rec.headers is not None:
+            m = _M()
+            m.status = int(dict(rec.headers).get(b":status", b"0"))
+            m.body = rec.data
+            m.framing = "h2"
+            cres.msgs.append(m)
+    else:
+        cres = ref_http1.parse_responses(client_out, [b"POST" if case["dir"] == "request" else b"GET"] * 3)
     sres = [ref_http1.parse_requests(d.out(s)) for s in d.servers]
     if verdict == "error":
         if "error" not in names:
@@ -310,6 +376,10 @@ def check_case(case, ctx):
             ctx.fail("forwarded-request-unreadable:%s" % cls, repr([d.out(s)[:300] for s in d.servers]))
             return
         got = sres[0].msgs[0].body
+        if case["framing"] == "h2" and verdict.startswith("stream"):
+            # a streamed HTTP/2 body reaches the HTTP/1 server without framing (known finding of C06); C07 judges the
+            # byte sequence that follows the head
+            got = d.out(d.servers[0]).split(b"\r\n\r\n", 1)[-1]
     else:
         if cres.error or not cres.msgs:
             if cres.partial is not None and cres.partial.framing == "eof":
